@@ -10,6 +10,11 @@
 
 #include <stdint.h>
 
+#ifdef PRIMECOUNT_VERIF
+  // Verification hook (H2): environment overrides of the CPU detection.
+  #include <cstdlib>
+#endif
+
 #if defined(_MSC_VER)
   #include <intrin.h>
   #include <immintrin.h>
@@ -85,6 +90,10 @@ namespace primecount {
 
 bool has_cpuid_popcnt()
 {
+#ifdef PRIMECOUNT_VERIF
+  if (std::getenv("PRIMECOUNT_VERIF_NO_POPCNT"))
+    return false;
+#endif
   int abcd[4];
   run_cpuid(1, 0, abcd);
   return (abcd[2] & bit_POPCNT) == bit_POPCNT;
@@ -92,6 +101,10 @@ bool has_cpuid_popcnt()
 
 bool has_cpuid_avx512_vpopcnt()
 {
+#ifdef PRIMECOUNT_VERIF
+  if (std::getenv("PRIMECOUNT_VERIF_NO_AVX512"))
+    return false;
+#endif
   int abcd[4];
 
   run_cpuid(1, 0, abcd);
